@@ -38,6 +38,47 @@ M = {
     'record-only-shown': ('Session.tla', '!.hist = Append(@, r.rec), !.hconn = Append(@, k), !.hdy = Append(@, dy)]',
                           '!.hist = IF SelLo(S1.filter, r.rec) THEN Append(@, r.rec) ELSE @, !.hconn = IF SelLo(S1.filter, r.rec) THEN Append(@, k) ELSE @, !.hdy = IF SelLo(S1.filter, r.rec) THEN Append(@, dy) ELSE @]',
                           'MC_Session.tla', 'MC_Session_live.cfg', None),
+    # C16: a separator already at a gap of exactly one second
+    'sep-at-one-second': ('Session.tla', 'ELSE IF gap > SECOND THEN <<ItSep(gap, may)>>', 'ELSE IF gap >= SECOND THEN <<ItSep(gap, may)>>',
+                          'MC_Session.tla', 'MC_Session_time.cfg', ['PropSeparator']),
+    # C08: --supress does not suppress
+    'supress-ignored': ('Session.tla', 'out |-> IF S.show THEN <<ItJunk(ev.text)>> ELSE <<>>, oc |-> "junk"]', 'out |-> <<ItJunk(ev.text)>>, oc |-> "junk"]',
+                        'MC_Session.tla', 'MC_Session_lines_sup.cfg', ['PropOneItemPerLine']),
+    # C15: a destroyed connection stays in the table of live addresses (the next one at that address is taken for it)
+    'destroy-keeps-address': ('GdbSession.tla', '[G EXCEPT !.S = c.S, !.pmap = Without(G.pmap, ev.addr)]', '[G EXCEPT !.S = c.S]',
+                              'MC_Gdb.tla', 'MC_Gdb.cfg', ['InvGState', 'PropGStep']),
+    # C15: the destruction of a known connection does not close it
+    'destroy-does-not-close': ('GdbSession.tla', 'IN [G |-> [G EXCEPT !.S = c.S, !.pmap = Without(G.pmap, ev.addr)], out |-> c.out,',
+                               'IN [G |-> [G EXCEPT !.pmap = Without(G.pmap, ev.addr)], out |-> <<>>,',
+                               'MC_Gdb.tla', 'MC_Gdb.cfg', ['InvGState', 'PropGStep']),
+    # C04: a connection opened again keeps the old one's name (ordinal)
+    'reopen-keeps-name': ('Session.tla', 'nc == NewConn(ev.tag, Len(S.conns), ev.role)',
+                          'nc == NewConn(ev.tag, IF \\E k \\in 1..Len(S.conns) : S.conns[k].tag = ev.tag THEN (CHOOSE k \\in 1..Len(S.conns) : S.conns[k].tag = ev.tag) - 1 ELSE Len(S.conns), ev.role)',
+                          'MC_Gdb.tla', 'MC_Gdb.cfg', ['InvGState', 'PropGStep']),
+    # C10: any command resumes the program
+    'any-command-resumes': ('GdbSession.tla', '!.halted = (ex = "none")]', '!.halted = FALSE]', 'MC_Gdb.tla', 'MC_Gdb.cfg', ['PropGStep']),
+    # C14: letters as plain base 26 (a = 0): `aa` would be position 0 again
+    'letters-plain-base26': ('LetterId.tla', 'ELSE ToLettersIn(alpha, (n \\div 26) - 1) \\o <<alpha[(n % 26) + 1]>>',
+                             'ELSE ToLettersIn(alpha, n \\div 26) \\o <<alpha[(n % 26) + 1]>>', 'MC_LetterId.tla', 'MC_LetterId_quick.cfg',
+                             ['RoundTrip', 'NoGaps', 'Increasing']),
+    # C07: the description loaded first wins
+    'first-loaded-wins': ('Protocol.tla', 'IF d.name \\in DOMAIN tbl /\\ tbl[d.name].version >= d.version THEN tbl', 'IF d.name \\in DOMAIN tbl THEN tbl',
+                          'MC_Protocol.tla', 'MC_Protocol.cfg', ['HighestWins', 'OrderFree']),
+    # C19: the last marker splits the command line
+    'last-marker-splits': ('CmdLine.tla', 'IN IF s = {} THEN 0 ELSE CHOOSE i \\in s : \\A j \\in s : i <= j', 'IN IF s = {} THEN 0 ELSE CHOOSE i \\in s : \\A j \\in s : i >= j',
+                           'CmdLine.tla', 'CmdLine.cfg', ['FirstWins', 'ForwardedVerbatim']),
+    # C01: arguments are split at every comma
+    'split-at-comma': ('ArgSplit.tla', 'start2 == IF hit THEN i + 2 ELSE start', 'start2 == IF hit THEN i + 1 ELSE start',
+                       'MC_ArgSplit.tla', 'MC_ArgSplit_quick.cfg', ['RoundTrip']),
+    # C09: the `?` marker counts as an argument
+    'nullable-marker-is-code': ('Closure.tla', 'Codes == {"i", "u", "f", "s", "o", "n", "a", "h"}', 'Codes == {"i", "u", "f", "s", "o", "n", "a", "h", "?"}',
+                                'MC_Closure.tla', 'MC_Closure.cfg', ['OnePerCode', 'InOrder', 'Agrees']),
+    # C12: a matcher given to `filter` replaces the current one
+    'filter-replaces': ('Matcher.tla', '''       ELSE Collapse([c |-> "acc", alts |-> cur.alts \\o Specifics(pos), excl |-> excl2,''',
+                        '''       ELSE Collapse([c |-> "acc", alts |-> Specifics(pos), excl |-> excl2,''', 'MC_Matcher.tla', 'MC_Matcher_quick.cfg', ['LawRefine']),
+    # C05: a comma list needs all of its alternatives
+    'list-needs-all': ('Matcher.tla', '/\\ (Len(t.pos) = 0 \\/ \\E i \\in 1..Len(t.pos) : TextSemC(t.pos[i], cs))', '/\\ (Len(t.pos) = 0 \\/ \\A i \\in 1..Len(t.pos) : TextSemC(t.pos[i], cs))',
+                       'MC_Matcher.tla', 'MC_Matcher_quick.cfg', None),
 }
 
 
